@@ -377,7 +377,10 @@ def desugar_enumerate_expr(fn_text, label):
     close = extract.match_brace(fn_text, brace)
     body = fn_text[brace + 1:close]
     if re.search(r"\bcontinue\b", body):
-        raise Undecided(f"{label}: loop body contains `continue`")
+        if re.search(r"\b(for|while|loop)\b", body):
+            raise Undecided(f"{label}: loop body contains `continue` and a nested loop")
+        # `continue` in the `for` skips to the next index: in the index loop the increment has to come first
+        body = re.sub(r"\bcontinue\s*;", "{ " + i + " += 1; continue; }", body)
     new = (f"let mut {i}: usize = 0;\n            while {i} < {x}.len() {{\n                let {v} = &{x}[{i}];"
            + body + f"    {i} += 1;\n            }}")
     return fn_text[:m.start()] + new + fn_text[close + 1:]
@@ -387,6 +390,13 @@ def build(read):
     b = Built()
     f = parts.copy_item(b, read, "src/eval/mod.rs", "fn", "eq")
     rt = parts.copy_item(b, read, "src/eval/error.rs", "fn", "render_type")
+    refeq = parts.copy_item(b, read, "src/eval/mod.rs", "fn", "ref_eq")      # (`===`'s helper: under contract in V-binop; here so that a use inside `eq` is seen)
+    refeq = extract.annotate_fn(refeq, spec="""
+    ensures
+        (lhs matches Value::List(a) && rhs matches Value::List(b)) ==> r == Some(same_cell(lhs->List_0, rhs->List_0)),
+        (lhs matches Value::Object(a) && rhs matches Value::Object(b)) ==> r == Some(same_cell(lhs->Object_0, rhs->Object_0)),
+        !((lhs is List && rhs is List) || (lhs is Object && rhs is Object) || (lhs is Func && rhs is Func)) ==> r is None,
+""")
     ops = parts.copy_item(b, read, "src/eval/error.rs", "fn", "op_symbol")
     ops = extract.annotate_fn(ops, spec=SPEC_OP)
 
@@ -404,7 +414,7 @@ def build(read):
         1: {"header": """                invariant
                     i <= lock_deref!(xs)@.len(),
                     lock_deref!(xs)@.len() == lock_deref!(ys)@.len(),
-                    veq_list(lock_deref!(xs), lock_deref!(ys)@, 0) == veq_list(lock_deref!(xs), lock_deref!(ys)@, i as int),
+                    veq_list(lock_deref!(xs), lock_deref!(ys)@, 0) == veq_list(lock_deref!(xs), lock_deref!(ys)@, i as int), // [C10_C16:every_pair_of_elements_is_compared_in_order_and_the_first_difference_or_mismatch_decides]
                 decreases lock_deref!(xs)@.len() - i"""},
         2: {"before": "let ghost es = entries_of_spec(lock_deref!(xs));\n            let ghost mut gi: int = 0;",
             "header": """                invariant
@@ -412,7 +422,7 @@ def build(read):
                     __ite.remaining().len() == entries(lock_deref!(xs)@).len() - gi,
                     forall|j: int| 0 <= j < __ite.remaining().len() ==> (#[trigger] __ite.remaining()[j]).0@ == entries(lock_deref!(xs)@)[gi + j].0
                         && *__ite.remaining()[j].1 == entries(lock_deref!(xs)@)[gi + j].1,
-                    veq_obj(lock_deref!(xs), lock_deref!(ys)@, 0) == veq_obj(lock_deref!(xs), lock_deref!(ys)@, gi),
+                    veq_obj(lock_deref!(xs), lock_deref!(ys)@, 0) == veq_obj(lock_deref!(xs), lock_deref!(ys)@, gi), // [C10_C16:every_property_is_looked_up_by_key_in_the_other_object_and_compared]
                 ensures
                     gi == entries(lock_deref!(xs)@).len(),
                 decreases entries(lock_deref!(xs)@).len() - gi"""},
@@ -434,7 +444,7 @@ def build(read):
         OP_TEXT,
         "pub mod error {\n    use super::*;\n// ---- verbatim from src/eval/error.rs\n" + rt + "\n" + ops + "\n}",
         "// ---- function under contract (verbatim body; contract text inserted at anchors)",
-        f,
+        refeq, f,
         LAWS,
         parts.FOOTER,
     ])
